@@ -2,6 +2,7 @@ import Hertz.Proofs.Http1
 import Hertz.Proofs.PrefixStable
 import Hertz.Proofs.PrefixStableResp
 import Hertz.Proofs.ScanEdit
+import Hertz.Proofs.ScanEditN
 /-!
 # C02 — message parsing does not depend on how bytes are split into reads
 
@@ -461,7 +462,7 @@ def RescanAfterEditEqWhole : Prop :=
 set_option maxRecDepth 100000 in
 /-- FALSE of the code as it stands: `X: a \r\n \r\n` ‖ ` c\r\n\r\n` reads `a  c` after the cut and `a   c` whole
 (known finding `obsfold-compacted-before-complete`, replayed on the real scanner and on the real client). -/
-theorem rescan_after_edit_eq_whole_fails_at : ¬ RescanAfterEditEqWhole := by
+theorem rescan_without_needmore_rule_fails_at : ¬ RescanAfterEditEqWhole := by
   intro h
   have h1 := h false exDryA [exDryB]
   revert h1
@@ -489,7 +490,7 @@ theorem rescan_after_edit_eq_whole_partial (dn : Bool) (buf more : Bytes)
 /-- **… and for every segmentation into any number of reads**: the retry scheme WITH the edits
 (`retryScanE`: scan; on need-more append the next segment to the edited buffer and scan again) reads what one scan
 of the concatenation reads, provided no stage compacted prematurely (`retryClean`). -/
-theorem rescan_after_edit_eq_whole_segments (dn : Bool) : ∀ (segs : List Bytes) (buf : Bytes),
+theorem rescan_without_needmore_rule_segments_partial (dn : Bool) : ∀ (segs : List Bytes) (buf : Bytes),
     retryClean dn buf segs = true →
     (retryScanE dn buf segs).reading = (scanBlock dn (buf ++ segs.flatten)).reading
   | [], buf, _ => by simp [retryScanE]
@@ -498,7 +499,7 @@ theorem rescan_after_edit_eq_whole_segments (dn : Bool) : ∀ (segs : List Bytes
     cases hstop : (scanBlock dn buf).stop with
     | needMore =>
       simp only [hstop, Bool.and_eq_true, Bool.not_eq_true'] at h ⊢
-      rw [rescan_after_edit_eq_whole_segments dn segs _ h.2, List.append_assoc,
+      rw [rescan_without_needmore_rule_segments_partial dn segs _ h.2, List.append_assoc,
         rescan_after_edit_eq_whole_partial dn buf _ h.1]
       simp
     | fin n =>
@@ -632,7 +633,7 @@ example :
 /-- **`resp.ReadHeader` over any number of reads, WITH the edits** — the counterpart of
 `client_read_segmentation_invariant` for the real buffer: the retry loop that parses the edited buffer plus each new
 read answers what one parse of the concatenation answers, provided no stage compacted a value before it was complete. -/
-theorem client_read_with_edits_segmentation_invariant (dn : Bool) : ∀ (segs : List Bytes) (buf : Bytes),
+theorem client_read_without_needmore_rule_partial (dn : Bool) : ∀ (segs : List Bytes) (buf : Bytes),
     respRetryClean dn buf segs = true →
     respRetryE dn buf segs = RespRead.parseRespHead dn (buf ++ segs.flatten)
   | [], buf, _ => by simp [respRetryE, resp_parse_edit_answer]
@@ -644,7 +645,7 @@ theorem client_read_with_edits_segmentation_invariant (dn : Bool) : ∀ (segs : 
       cases e with
       | needMore =>
         simp only [hr, Bool.and_eq_true] at h ⊢
-        rw [client_read_with_edits_segmentation_invariant dn segs _ h.2, List.append_assoc]
+        rw [client_read_without_needmore_rule_partial dn segs _ h.2, List.append_assoc]
         have hc : ∀ hd0 m, RespRead.parseFirstLine buf = .ok (hd0, m) →
             anyDryFold dn ((buf.drop m).length + 1) (buf.drop m) = false := by
           intro hd0 m hfl
@@ -694,5 +695,134 @@ example :
      | .error _ => false) = true := by decide +kernel
 
 end X02
+
+/-! ## X02b — the scanner as it stands after /repo c627e0d (`scanNextN`, `scanBlockN`, `respParseN`, `trailerParseN`)
+
+c627e0d: a folded value whose look-ahead ran out of buffered bytes is no longer handed out and compacted; `Next` answers
+need-more (the key is rewritten by then, `HLen` advanced).  The functions of section X02 without the suffix `N` are the scanner
+WITHOUT that rule; their theorems stay (`rescan_without_needmore_rule_fails_at`: without the rule the retry scheme depends on
+the segmentation — the former defect; the `_partial` theorems: what held before).  With the rule every hypothesis goes. -/
+section X02b
+open Hertz.H1.ScanEdit
+
+/-- **Rescan after edit = whole (two reads), unconditionally.**  What the scanner left in the buffer, followed by the
+bytes read since, reads (fields, stop, header length) as one scan of the whole — for every buffer and continuation. -/
+theorem rescan_after_edit_eq_whole (dn : Bool) (buf more : Bytes) :
+    readBlock dn ((buf ++ more).length + 1) (editBlockN dn buf ++ more) =
+      readBlock dn ((buf ++ more).length + 1) (buf ++ more) :=
+  rescanN dn _ buf more _ (Nat.le_refl _) (Nat.le_refl _)
+
+/-- **… for every segmentation into any number of reads.** -/
+theorem rescan_after_edit_eq_whole_segments (dn : Bool) : ∀ (segs : List Bytes) (buf : Bytes),
+    retryReadN dn buf segs = readBlock dn ((buf ++ segs.flatten).length + 1) (buf ++ segs.flatten)
+  | [], buf => by simp [retryReadN]
+  | seg :: segs, buf => by
+    simp only [retryReadN]
+    cases hstop : (readBlock dn (buf.length + 1) buf).2 with
+    | needMore =>
+      simp only []
+      rw [rescan_after_edit_eq_whole_segments dn segs _, List.append_assoc]
+      have hl : (editBlockN dn buf ++ (seg ++ segs.flatten)).length = (buf ++ (seg ++ segs.flatten)).length := by
+        simp [editBlockN_len]
+      rw [hl, rescan_after_edit_eq_whole]
+      simp
+    | fin n =>
+      simp only []
+      exact (readBlock_stable dn _ _ _ buf (by simp) (by rw [hstop]; simp)).symm
+    | invalidName =>
+      simp only []
+      exact (readBlock_stable dn _ _ _ buf (by simp) (by rw [hstop]; simp)).symm
+
+/-- client, `resp.parseHeaders`: the header object from the edited block plus more bytes is the one from the whole -/
+theorem resp_headers_rescan (dn : Bool) (hd : RespRead.RespHead) (B more : Bytes) :
+    RespRead.parseHeaders dn hd (editBlockN dn B ++ more) = RespRead.parseHeaders dn hd (B ++ more) := by
+  have hl : (editBlockN dn B ++ more).length = (B ++ more).length := by simp [editBlockN_len]
+  unfold RespRead.parseHeaders
+  rw [hl, headersLoop_eq_fold, headersLoop_eq_fold, rescan_after_edit_eq_whole]
+
+/-- trailer section (loop of `ext.parseTrailer`, client and server side) -/
+theorem trailer_rescan (dn : Bool) (tr : List (Bytes × Option Bytes)) (err : Bool) (hl : Nat) (B more : Bytes) :
+    parseTrailerLoop dn ((B ++ more).length + 1) (editBlockN dn B ++ more) tr err hl =
+      parseTrailerLoop dn ((B ++ more).length + 1) (B ++ more) tr err hl := by
+  rw [parseTrailerLoop_eq_fold, parseTrailerLoop_eq_fold, rescan_after_edit_eq_whole]
+
+/-- the answer of `resp.parse` is the pure parser's (a block that ends inside a fold is need-more with and without the rule) -/
+theorem resp_parse_answer (dn : Bool) (buf : Bytes) : (respParseN dn buf).1 = RespRead.parseRespHead dn buf := by
+  unfold respParseN
+  cases hfl : RespRead.parseFirstLine buf with
+  | error e => simp [RespRead.parseRespHead, hfl, bind, Except.bind]
+  | ok p => rfl
+
+/-- **Client, whole response head, rescan after edit — unconditionally.** -/
+theorem resp_head_rescan (dn : Bool) (buf more : Bytes) :
+    RespRead.parseRespHead dn ((respParseN dn buf).2 ++ more) = RespRead.parseRespHead dn (buf ++ more) := by
+  unfold respParseN
+  cases hfl : RespRead.parseFirstLine buf with
+  | error e => rfl
+  | ok p =>
+    obtain ⟨hd0, m⟩ := p
+    simp only []
+    have hm : m ≤ buf.length := RespRead.parseFirstLine_le buf hd0 m hfl
+    have hel : (editBlockN dn (buf.drop m)).length = (buf.drop m).length := editBlockN_len dn _
+    have h1 := respFirstLine_local buf (editBlockN dn (buf.drop m) ++ more) hd0 m hfl
+      (by simp [hel]; omega)
+    have h2 := RespRead.parseFirstLine_append buf more _ hfl (by simp)
+    have hd1 : (buf.take m ++ (editBlockN dn (buf.drop m) ++ more)).drop m = editBlockN dn (buf.drop m) ++ more :=
+      List.drop_left' (by simp; omega)
+    have hd2 : (buf ++ more).drop m = buf.drop m ++ more := List.drop_append_of_le_length hm
+    unfold RespRead.parseRespHead
+    rw [List.append_assoc, h1, h2]
+    simp only [bind, Except.bind, hd1, hd2]
+    rw [resp_headers_rescan dn hd0 (buf.drop m) more]
+
+/-- **`resp.ReadHeader` over any number of reads, WITH the edits, unconditionally**: the real retry loop on the real,
+edited buffer answers what one parse of the concatenation answers. -/
+theorem client_read_with_edits_segmentation_invariant (dn : Bool) : ∀ (segs : List Bytes) (buf : Bytes),
+    respRetryN dn buf segs = RespRead.parseRespHead dn (buf ++ segs.flatten)
+  | [], buf => by simp [respRetryN, resp_parse_answer]
+  | seg :: segs, buf => by
+    simp only [respRetryN]
+    have ha := resp_parse_answer dn buf
+    cases hr : (respParseN dn buf).1 with
+    | error e =>
+      cases e with
+      | needMore =>
+        simp only []
+        rw [client_read_with_edits_segmentation_invariant dn segs _, List.append_assoc, resp_head_rescan]
+        simp
+      | bad =>
+        simp only []
+        rw [ha] at hr
+        exact (RespRead.parseRespHead_append dn buf _ _ hr (by simp)).symm
+    | ok p =>
+      simp only []
+      rw [ha] at hr
+      exact (RespRead.parseRespHead_append dn buf _ _ hr (by simp)).symm
+
+set_option maxRecDepth 100000 in
+/-- regression on the former witnesses of the defect c627e0d repaired: `X: a \r\n \r\n` ‖ ` c\r\n\r\n` (now need-more
+without a field, key rewritten only, then `a   c` as in one scan), `X: a\r\n b \r\r\n` ‖ ` c\r\n\r\n`, `X: a\r\n\t\r\t\r\n` ‖ ` c\r\n\r\n` -/
+theorem rescan_after_edit_eq_whole_repaired :
+    ((scanBlockN false exDryA).fields = [] ∧ (scanBlockN false exDryA).stop = .needMore ∧
+      (scanBlockN false exDryA).touched = 3 ∧ (scanBlockN false exDryA).buf = exDryA ∧
+      (retryScanN false exDryA [exDryB]).reading = (scanBlockN false (exDryA ++ exDryB)).reading ∧
+      (retryScanN false exDryA [exDryB]).fields = [([88], [97,32,32,32,99])]) ∧
+    (retryScanN false [88,58,32,97,13,10,32,98,32,13,13,10] [exDryB]).reading =
+      (scanBlockN false ([88,58,32,97,13,10,32,98,32,13,13,10] ++ exDryB)).reading ∧
+    (retryScanN false [88,58,32,97,13,10,9,13,9,13,10] [exDryB]).reading =
+      (scanBlockN false ([88,58,32,97,13,10,9,13,9,13,10] ++ exDryB)).reading := by decide +kernel
+
+set_option maxRecDepth 100000 in
+/-- non-vacuity of the unconditional theorems: a first read that ends inside a fold (`x-a: 1\r\nX-Note: first\r\n second\r\n`) —
+`X-A` handed out and rewritten, `X-Note` NOT handed out (need-more, key only), then the rest -/
+example :
+    let buf : Bytes := [72,84,84,80,47,49,46,49,32,50,48,48,32,79,75,13,10] ++ [120,45,97,58,32,49,13,10] ++ exNoteA
+    (scanBlockN false ([120,45,97,58,32,49,13,10] ++ exNoteA)).fields = [([88,45,65], [49])] ∧
+    (scanBlockN false ([120,45,97,58,32,49,13,10] ++ exNoteA)).stop = .needMore ∧
+    (match respRetryN false buf [exNoteB] with
+     | .ok (hd, n) => hd.status == 200 && hd.h.length == 3 && n == 59
+     | .error _ => false) = true := by decide +kernel
+
+end X02b
 
 end Hertz.Props.C02
